@@ -5,6 +5,7 @@ import (
 	"math/big"
 	"sort"
 
+	"github.com/elastos/Elastos.ELA/blockchain"
 	"github.com/elastos/Elastos.ELA/common"
 	"github.com/elastos/Elastos.ELA/common/config"
 	"github.com/elastos/Elastos.ELA/core/types/interfaces"
@@ -16,6 +17,15 @@ func (s *sim) applyKnobs(cfg *config.Configuration) {
 	p := s.c.Plan
 	if v := p.Knob("maturity", -1); v >= 0 {
 		cfg.PowConfiguration.CoinbaseMaturity = uint32(v)
+	}
+	// cache knobs (C15): a reference cache of a handful of entries evicts on
+	// nearly every lookup. MaxReferenceSize is a package variable of the node.
+	blockchain.MaxReferenceSize = 100000
+	if v := p.Knob("maxref", 0); v > 0 {
+		blockchain.MaxReferenceSize = int(v)
+	}
+	if v := p.Knob("txcachevol", -1); v >= 0 {
+		cfg.TxCacheVolume = uint32(v)
 	}
 	// compressed issuance schedule (C11)
 	if v := p.Knob("newissue", -1); v >= 0 {
@@ -109,6 +119,9 @@ func (s *sim) checkAll() {
 	s.checkViews(tip)
 	s.checkPool(tip)
 	s.checkPoolBookkeeping()
+	if s.prop == "C15" || s.c.Plan.Knob("maxref", 0) > 0 {
+		s.checkCaches(tip)
+	}
 }
 
 // checkViews is the C14 oracle: every queryable UTXO view agrees with the
